@@ -58,6 +58,16 @@ func TestC17(t *testing.T) {
 
 func runHistory(r *core.Run, hid string, nTx int) {
 	w := newWorld(r, hid, r.Rng(hid))
+	if os.Getenv("C17_DEBUG") != "" {
+		defer func() {
+			ctx := w.n.Ctx()
+			for _, v := range w.n.App.StakingKeeper.GetAllValidators(ctx) {
+				ca, _ := v.GetConsAddr()
+				fmt.Printf("DBG validator %s cons=%s status=%s tokens=%s shares=%s jailed=%v\n", v.OperatorAddress, ca, v.Status, v.Tokens, v.DelegatorShares, v.Jailed)
+			}
+			fmt.Printf("DBG height=%d now=%s txs=%d proposer=%s\n", w.n.Header.Height, w.now, w.txCount, sdk.ConsAddress(w.proposer))
+		}()
+	}
 	for w.txCount < nTx && !w.dead {
 		w.block()
 	}
@@ -631,7 +641,7 @@ func (w *world) evidence() []abci.Evidence {
 	var cands []stakingtypes.Validator
 	for _, v := range last {
 		ca, _ := v.GetConsAddr()
-		if !bytes.Equal(ca.Bytes(), n.Vals.Proposer.Address) {
+		if !bytes.Equal(ca.Bytes(), w.proposer) {
 			cands = append(cands, v)
 		}
 	}
